@@ -10,4 +10,6 @@ mod c02;
 #[cfg(kani)]
 mod c04;
 #[cfg(kani)]
+mod c18;
+#[cfg(kani)]
 mod c19;
